@@ -113,6 +113,25 @@ func modelLine(c *Case) string {
 		if c.ArgSrc != "" {
 			return "" // arguments from a nested call: the outer arms, not modelled per argument
 		}
+		if c.Ctx == "defineloop" {
+			if viaCall(c) {
+				return "" // a callee of script-written function type goes through `call`, not through callBin's aAssignX arm
+			}
+			// per referenced variable: is the result stored by each execution the zero value of its type?
+			line := "C07 define"
+			bc := &buildCtx{}
+			for i, t := range c.Sig.In {
+				if c.Capture[i] == "none" {
+					continue
+				}
+				zs := []string{"zero"}
+				for _, it := range c.Iters {
+					zs = append(zs, b01(bc.build(it[i], t.RT).IsZero()))
+				}
+				line += " " + common.L(zs...)
+			}
+			return line
+		}
 		if c.Ctx == "condloop" {
 			// the results of the successive calls (the callee returns its first argument, or its negation)
 			rs := []string{"results"}
